@@ -471,7 +471,7 @@ def check_c11(tier, replay=None):
         cls = posfilter(wd, cand, "c11")
         synth = [c for c in cand if cls[c]["wf"]]
         fens = list(dict.fromkeys(fens + synth))
-        for f in (fens if T else rng.sample(fens, min(len(fens), 2500))):
+        for f in (fens if T else rng.sample(fens, min(len(fens), 1800))):
             ev(f, 0, "static evaluation")
             ev(flip_fen(f), 1, "static evaluation of the colour-flipped twin")
         # terminal positions: every mate / stalemate of the corpus and of the synthetic set, several full-move numbers
@@ -505,7 +505,7 @@ def check_c11(tier, replay=None):
             go_case(cases, flip_fen(f), d, "ab", mode="free", flipof=a["id"], w=3, why="... and on its colour-flipped twin")
         # mate distances for both sides and both colours: candidate forced mates (certificate verified by TLC): the mating side must
         # announce mate k <= N, the side being mated (position after the certified move) mate -k with k <= N - 1
-        for i, f in enumerate(mate_candidates(rng, 8000 if T else 700)):
+        for i, f in enumerate(mate_candidates(rng, 8000 if T else 400)):
             cases.append({"id": len(cases) + 1, "family": "search", "k": "matego", "fen": f, "moves": [], "searchmoves": [], "ref": "ab", "mode": "mate",
                           "cycle": [], "pre": [], "warm": [], "flipof": 0, "cap": 60000, "ttcap": 0, "w": 4,
                           "why": "candidate forced mate: winning and losing mate scores", "key": [f, [], "mate", [], False]})
